@@ -256,6 +256,7 @@ package models
 //@   property C09
 //@   attr deterministic
 //@   modifies nothing
+//@   loop query variant [query-shrinks] @C10 len(query) // C10: nothing a remote server can send makes the crawler spin forever in URL normalisation (each round of the query loop cuts a non-empty prefix off the remaining text)
 //@   loop query invariant [fold] @C09,C08 reencAcc(sbtext(buf), query) == reencAcc("", old(query)) // C09: well-formed query parameters keep their order and multiplicity
 //@   ensures [order] @C09,C08 result == reenc(query) // C08: the canonical URL two items are compared by is this re-encoding (a parameter dropped by mistake makes different URLs look seen)
 
